@@ -316,13 +316,17 @@ Section Write.
   Definition write_kind_is_string (t : vtype) : bool :=
     match t with
     | TScalar k => kind_is_string k
+    | TPtr k => kind_is_string k
     | TSlice (TScalar k) => kind_is_string k
+    | TSlice (TPtr k) => kind_is_string k
     | TMap _ v => kind_is_string v
     | _ => false
     end.
 
   Definition write_option (name : str) (is_string : bool) (key value : str) (comment force_quote : bool) : str :=
-    let value := if force_quote || (is_string && negb (all_print value)) then quote value else value in
+    let needs_quote := negb (all_print value) || negb (str_eqb (trim_space value) value)
+                       || match value with 34 :: _ => true | _ => false end in
+    let value := if force_quote || (is_string && needs_quote) then quote value else value in
     (if comment then s2l "; " else []) ++ name ++ s2l " =" ++
     (if nonempty key then [32] ++ key ++ [58] ++ value
      else if nonempty value then 32 :: value else []) ++ [10].
@@ -382,6 +386,7 @@ Section Write.
                             Ok (concat (map (fun kv : str * str => write_option oname iss (fst kv) (snd kv) comment (f_iniquote fl))
                                             (sort_by (fun kv : str * str => fst kv) pairs))))
                   end
+                | TPtr _, VPtr None => Ok (write_option oname iss [] [] true (f_iniquote fl))   (* no value to write *)
                 | t, _ => bind (cts o t v) (fun tx => Ok (write_option oname iss [] tx comment (f_iniquote fl)))
                 end)
                (fun body => Ok (head ++ body ++ tail))).
